@@ -8,6 +8,8 @@ from vp import Obl
 
 OBLIGATIONS = []
 KIT = ["vp_nondet.c", "vp_mem.c", "vp_alloc.c"]
+# decoders that allocate from untrusted lengths: concrete-size right-aligned slabs (see kit/vp_alloc_slab.c)
+SLAB_KIT = ["vp_nondet.c", "vp_mem.c", "vp_alloc_slab.c"]
 
 
 def add(name, harness, **kw):
@@ -117,12 +119,167 @@ for n in range(0, 13):
         defs={"VP_MODE": 0, "VP_N": n}, unwind=n + 3, unwindset={"strcmp.0": 9},
         functions=["ldb_parse_filename", "ldb_decode_int", "ldb_starts_with"],
         desc="parse_filename/decode_int/starts_with on an arbitrary NUL-terminated string: never read past the terminator, accept exactly the owned names, type/number == reference",
-        bounds="string of exactly %d arbitrary non-NUL chars + NUL" % n)
-for n in (19, 20, 21):
-    add("j.decode-int-digits-L%d" % n, "C18/filename.c", real=["filename.c", "util/strutil.c", "util/slice.c"], kit=STR_KIT,
+        bounds="string of exactly %d arbitrary non-NUL chars + NUL%s" % (n, "" if n <= 7 else ", leading digit run <= 7"))
+for n in (20, 21):
+    add("j.decode-int-boundary-L%d" % n, "C18/filename.c", real=["filename.c", "util/strutil.c", "util/slice.c"], kit=STR_KIT,
         defs={"VP_MODE": 1, "VP_N": n}, unwind=n + 3,
         functions=["ldb_decode_int"],
-        desc="decode_int on %d arbitrary decimal digits: accepts iff the value fits uint64 (no wrap-around), value == reference" % n,
+        desc="decode_int around UINT64_MAX: concrete prefix 18446744073709551[6[1]] + 2 arbitrary chars: accepts iff the value fits uint64 (no wrap-around), value == reference",
+        bounds="string of %d chars: %d concrete digits + 2 arbitrary non-NUL chars + NUL" % (n, n - 2))
+for n in (8, 10, 12, 19):
+    add("j.decode-int-digits-L%d" % n, "C18/filename.c", real=["filename.c", "util/strutil.c", "util/slice.c"], kit=STR_KIT,
+        defs={"VP_MODE": 2, "VP_N": n}, unwind=n + 3, tier="thorough", timeout=3000,
+        functions=["ldb_decode_int"],
+        desc="decode_int on %d arbitrary decimal digits: accepted (fits uint64), value == reference" % n,
         bounds="string of exactly %d arbitrary digits + NUL" % n)
+
+# ---------------------------------------------------------------- i. dbformat.c
+for n in range(0, 13):
+    add("i.pkey-import-N%d" % n, "C18/dbformat.c", real=["dbformat.c", "util/slice.c", "util/buffer.c", "util/comparator.c"],
+        defs={"VP_MODE": 0, "VP_N": n}, unwind=n + 2,
+        functions=["ldb_pkey_import"],
+        desc="pkey_import on arbitrary bytes: safe, accepts iff >= 8 bytes and type byte <= 1; user key/sequence/type == reference",
+        bounds="N=%d arbitrary bytes" % n)
+for (n, m) in ((8, 8), (8, 9), (9, 8), (10, 10), (12, 9), (12, 12), (16, 16)):
+    add("i.ikc-compare-N%d-M%d" % (n, m), "C18/dbformat.c", real=["dbformat.c", "util/slice.c", "util/buffer.c", "util/comparator.c"],
+        defs={"VP_MODE": 1, "VP_N": n, "VP_M": m}, unwind=max(n, m) + 2,
+        restrict_fp=["harness.function_pointer_call.1/ldb_ikc_compare", "harness.function_pointer_call.2/ldb_ikc_compare",
+                     "ldb_ikc_compare.function_pointer_call.1/slice_compare"],
+        functions=["ldb_ikc_compare", "slice_compare", "ldb_ikc_init"],
+        desc="internal key comparator over bytewise on two arbitrary keys >= 8 bytes: safe, sign == reference (user key asc, trailer desc), antisymmetric",
+        bounds="keys of %d and %d arbitrary bytes" % (n, m))
+
+# ---------------------------------------------------------------- e. table/block.c
+BLOCK_REAL = ["table/iterator.c", "util/comparator.c", "util/buffer.c", "util/slice.c", "dbformat.c"]
+BLOCK_FUNCS = ["ldb_block_init", "ldb_blockiter_create", "ldb_blockiter_first", "ldb_blockiter_last", "ldb_blockiter_seek",
+               "ldb_blockiter_next", "ldb_blockiter_prev", "parse_next_key", "decode_entry", "get_restart_point",
+               "seek_to_restart_point", "ldb_blockiter_corruption", "ldb_iter_destroy"]
+OPNAME = {1: "first", 2: "last", 3: "seek", 4: "next", 5: "prev", 6: "seek2"}
+
+
+def block_unwindset(n, t, slab):
+    """D = largest data region (N minus num_restarts word minus one restart), E = most entries (>= 3 bytes each),
+    R = most restart points.  Loop names: goto-instrument --show-loops."""
+    dd = max(0, n - 8)
+    e = dd // 3
+    r = max(0, n - 4) // 4
+    d = {"ldb_blockiter_last.0": e + 2, "ldb_blockiter_seek.0": r + 1, "ldb_blockiter_seek.1": e + 2,
+         "ldb_blockiter_prev.0": r + 1, "ldb_blockiter_prev.1": e + 2, "parse_next_key.0": r + 1,
+         "memcpy.0": dd + 1, "memcmp.0": max(dd, t) + 1, "ldb_realloc.0": slab + 1,
+         "vp_ref_step.0": dd + 1, "vp_do_op.0": e + 2, "vp_check_state.0": dd + 1, "vp_check_same.0": dd + 1,
+         "vp_ref_bytewise.0": max(dd, t) + 1, "vp_ref_varint.0": 6, "vp_ref_le32.0": 5, "vp_ref_le64.0": 9,
+         "vp_fill.0": max(n, t) + 1}
+    for sfx in LINKS:
+        d["ldb_varint32_read%s.0" % sfx] = 6
+    return d
+
+
+def block_obl(n, ops, ikc=0, t=2, tier="quick", timeout=300):
+    ops = tuple(ops) + (0,) * (3 - len(ops))
+    nm = "-".join(OPNAME[o] for o in ops if o) or "init"
+    emin = 11 if ikc else 3                      # smallest entry that can be valid
+    need = 1 + sum(1 for o in ops[1:] if o == 4) + (1 if 5 in ops else 0)
+    slab = max(4, 2 * max(0, n - 8) + 2)   # key buffer <= data region D = N-8; buffer.c grows by x1.5
+    defs = {"VP_SLAB": slab, "VP_N": n, "VP_T": t, "VP_OP1": ops[0], "VP_OP2": ops[1], "VP_OP3": ops[2], "VP_IKC": ikc}
+    seek_corrupt = ikc and t < 8 and (3 in ops or 6 in ops)
+    if n >= 8 + emin * need and not seek_corrupt:
+        defs["VP_WIT_VALID"] = None
+    if n >= 9 or (seek_corrupt and n >= 8):
+        defs["VP_WIT_CORRUPT"] = None
+    if seek_corrupt:
+        defs["VP_NO_WIT_EXHAUSTED"] = None
+    cmpfn = "ldb_ikc_compare" if ikc else "slice_compare"
+    fp = ["harness.function_pointer_call.1/ldb_emptyiter_valid", "harness.function_pointer_call.2/ldb_emptyiter_status",
+          "harness.function_pointer_call.3/ldb_emptyiter_status",
+          "ldb_iter_clear.function_pointer_call.1/ldb_blockiter_clear,ldb_emptyiter_clear",
+          "do_compare.function_pointer_call.1/" + cmpfn]
+    if ikc:
+        fp.append("ldb_ikc_compare.function_pointer_call.1/slice_compare")
+    add("e.block-%s%s-N%d%s" % ("ikc-" if ikc else "", nm, n, ("-T%d" % t) if (3 in ops or 6 in ops) else ""),
+        "C18/block.c", real=BLOCK_REAL, include_real=["table/block.c"], kit=SLAB_KIT, defs=defs, unwind=n + 2,
+        unwindset=block_unwindset(n, t, slab), restrict_fp=fp,
+        tier=tier, timeout=timeout, functions=BLOCK_FUNCS,
+        desc="block_init + blockiter_create + %s on arbitrary block bytes (%s comparator): safe, terminates, status OK/CORRUPTION, valid => entry at the iterator offset decodes per reference and key suffix/value == its bytes; first/next/last == reference sequential decode; seek => key >= target; prev/next move strictly" % (nm, "internal-key" if ikc else "bytewise"),
+        bounds="block = N=%d arbitrary bytes%s" % (n, (", target %d arbitrary bytes" % t) if (3 in ops or 6 in ops) else ""))
+
+
+ALL_OPS = ((1,), (2,), (3,), (1, 4), (2, 5), (3, 4), (3, 5), (3, 6))
+for n in (0, 3, 4, 7):
+    block_obl(n, (0,))
+for n in (11, 12):
+    for ops in ALL_OPS:
+        block_obl(n, ops)
+block_obl(12, (3,), ikc=1, t=7)
+# thorough: more sizes (16 = two restart points / up to 2 entries, 20 = two distinct restart regions), 3-op sequences,
+# internal-key comparator with entries that can be valid (>= 11 bytes each)
+for n in (8, 9, 10, 13, 14, 15, 16):
+    for ops in ALL_OPS:
+        block_obl(n, ops, tier="thorough", timeout=3600)
+for n in (12, 14):
+    for ops in ((1, 4, 4), (1, 4, 5), (3, 4, 5), (3, 6, 5), (2, 5, 5)):
+        block_obl(n, ops, tier="thorough", timeout=3600)
+for n in (19, 20):
+    for ops in ((1,), (2,), (3,), (2, 5), (3, 5)):
+        block_obl(n, ops, ikc=1, t=8, tier="thorough", timeout=7200)
+for ops in ((1,), (3,)):
+    block_obl(20, ops, tier="thorough", timeout=7200)
+
+# ---------------------------------------------------------------- f. table/filter_block.c (+ util/bloom.c match)
+for n in range(0, 25):
+    add("f.filter-matches-N%d" % n, "C18/filter.c", real=["table/filter_block.c", "util/slice.c"],
+        defs={"VP_MODE": 0, "VP_N": n, "VP_K": 3}, unwind=max(n, 3) + 2,
+        restrict_fp=["ldb_filter_matches.function_pointer_call.1/vp_policy_match"],
+        tier="quick" if n <= 16 else "thorough",
+        functions=["ldb_filter_init", "ldb_filter_matches"],
+        desc="filter_init + filter_matches(arbitrary block offset) on arbitrary filter-block bytes with a recording policy: safe, number of filters/geometry == reference, policy consulted iff reference finds a well-formed filter, with exactly that slice (inside the block); result == reference",
+        bounds="filter block = N=%d arbitrary bytes, block_offset arbitrary 64-bit" % n)
+for n in (0, 1, 2, 3, 5, 9):
+    add("f.bloom-match-N%d" % n, "C18/filter.c", real=["util/bloom.c", "util/slice.c", "util/buffer.c"],
+        defs={"VP_MODE": 1, "VP_N": n, "VP_K": 3}, unwind=32,
+        restrict_fp=["harness.function_pointer_call.1/bloom_match"],
+        tier="quick" if n <= 5 else "thorough", timeout=600,
+        functions=["bloom_match", "bloom_hash"],
+        desc="bloom_match on an arbitrary filter (hash value arbitrary): safe (probe index inside the filter for every k <= 30), result == reference probe sequence; k > 30 => match, len < 2 => no match",
+        bounds="filter = N=%d arbitrary bytes, hash arbitrary 32-bit" % n)
+
+# ---------------------------------------------------------------- g. util/snappy.c
+for (n, out, tier, timeout) in [(n, 8, "quick", 300) for n in range(0, 9)] + \
+                               [(n, 16, "thorough", 3600) for n in range(2, 13)] + \
+                               [(n, 32, "thorough", 7200) for n in (4, 8)]:
+    add("g.snappy-decode-N%d-O%d" % (n, out), "C18/snappy.c", real=["util/snappy.c"],
+        defs={"VP_N": n, "VP_OUT": out}, unwind=out + 2,
+        # every element consumes >= 1 input byte; copies/literals are <= remaining output
+        unwindset={"decode_blocks.0": n + 1, "vp_ref_snappy.0": n + 1, "vp_ref_snappy.1": 5, "vp_fill.0": max(n, 1) + 1,
+                   "ldb_varint32_read.0": 6, "vp_ref_varint.0": 6},
+        tier=tier, timeout=timeout,
+        functions=["snappy_decode_size", "snappy_decode", "decode_blocks"],
+        desc="snappy_decode_size + snappy_decode into a buffer of exactly the announced length: safe (no write past it, no read outside input), terminates, accepts iff the reference snappy decoder accepts, output == reference",
+        bounds="compressed = N=%d arbitrary bytes, announced uncompressed length <= %d" % (n, out))
+
+# ---------------------------------------------------------------- h. log_reader.c
+def log_obl(n, calls, tier, timeout):
+    slab = max(4, 3 * max(0, n - 7) // 2 + 2)   # scratch <= N-7 payload bytes, buffer.c grows by x1.5
+    pr = n // 7 + 1                              # physical records per call, + 1 for the EOF/BAD step
+    add("h.log-read-C%d-N%d" % (calls, n), "C18/logreader.c", real=["log_reader.c", "util/buffer.c", "util/slice.c"],
+        kit=SLAB_KIT + ["vp_cksum.c"], defs={"VP_N": n, "VP_SLAB": slab, "VP_CALLS": calls}, unwind=n + 2,
+        unwindset={"read_physical_record.0": 3, "ldb_reader_read_record.0": pr + 1, "vp_ref_read.0": n // 7 + 4,
+                   "harness.0": calls + 1, "ldb_realloc.0": slab + 1, "ldb_crc32c_extend.0": max(1, n - 6) + 1,
+                   "vp_cksum_extend.0": max(1, n - 6) + 1, "sprintf.0": 31, "vp_ref_le32.0": 5,
+                   "memcpy.0": max(1, n - 7) + 1},
+        restrict_fp=["report_drop.function_pointer_call.1/vp_reporter"],
+        tier=tier, timeout=timeout,
+        functions=["ldb_reader_read_record", "read_physical_record", "report_drop", "report_corruption", "ldb_reader_init"],
+        desc="%d call(s) of reader_read_record over an arbitrary log file (src hook, abstract checksum, recording reporter): safe, terminates, each call returns a record iff the reference reader does, record bytes/length, number of corruption reports and dropped byte totals == reference" % calls,
+        bounds="file = N=%d arbitrary bytes (single 32 KiB block), initial_offset 0, checksum on, %d read_record call(s)" % (n, calls))
+
+
+for n in range(0, 7):
+    log_obl(n, 1, "quick", 300)
+for n in (7, 8, 14, 15):
+    log_obl(n, 1, "quick", 300)
+for n in list(range(9, 14)) + list(range(16, 25)):
+    log_obl(n, 1, "thorough", 3600)
+for n in (7, 8, 14, 15, 16, 21, 22):
+    log_obl(n, n // 7 + 1, "thorough", 7200)
 
 META = {}
